@@ -31,12 +31,14 @@ def o_basis(rng, n=6, which=("perm", "spg", "sum", "ortho", "compact"), max_N=(8
                         nontrivial=lambda i: i["crystal"].n_lp_expected >= 2 or len(i["crystal"].numbers) >= 2)
 
 
-def o_completeness(rng, n=6, max_N=(4, 3, 2), with_cutoff=False, orders=(2, 3, 4)):
+def o_completeness(rng, n=6, max_N=(4, 3, 2), with_cutoff=False, orders=(2, 3, 4), hooks=None):
     def gen():
         for k in range(n):
             order = orders[k % len(orders)]
             cr = crystal(rng, max_N=max_N[order - 2])
             inp = {"crystal": cr, "orders": [order], "cutoff": None}
+            if hooks:
+                inp["hooks"] = dict(hooks, eig_target=rng.randint(3, 7))
             if with_cutoff and k % 2:
                 from . import physics as ph
                 d = ph.min_image_distances(cr)
@@ -111,10 +113,70 @@ def known_F1(k, f):
     if "basis vectors but the admissible space has dimension" in what:
         import re
         m = re.search(r"order 4: (\d+) basis vectors .* dimension (\d+) \(computed span inside reference: dev ([0-9.e+-]+)\)", what)
-        return bool(m) and int(m.group(1)) < int(m.group(2)) and float(m.group(3)) < 1e-7 and det.get("n_forced_zero", 0) > 0
+        # exact signature: the computed space IS the admissible space with every (p,p,q,q) element forced to zero
+        return (bool(m) and int(m.group(1)) < int(m.group(2)) and float(m.group(3)) < 1e-7
+                and det.get("f1_dim") == det.get("nb") and det.get("f1_span_dev", 1.0) < 1e-7)
     if "rigid rotation" in what:
         return True
+    if "admissible force constants (reference space of dimension" in what:
+        return det.get("nb", 0) < det.get("dim", 0)
     return False
+
+
+# ------------------------------------------------------------------------------------------------ corpus
+def _tric2():
+    import random
+    from .gen import build_supercell, random_triclinic
+    r = random.Random(777)
+    L, B, Z = random_triclinic(r, 2)
+    return build_supercell("tric2_corpus", L, B, Z, np.diag([1, 1, 1]))
+
+
+def corpus_F1_completeness(rng):
+    """known finding F1, fixed witness: two-atom P1 cell, order 4"""
+    return O.run_oracle("completeness", [{"crystal": _tric2(), "orders": [4], "cutoff": None}])
+
+
+def corpus_F1_cutoff(rng):
+    cr = _tric2()
+    from . import physics as ph
+    d = ph.min_image_distances(cr)
+    return O.run_oracle("completeness", [{"crystal": cr, "orders": [4], "cutoff": {"4": float(d.max() + 1.0)}}])
+
+
+def corpus_F1_recovery(rng):
+    return O.run_oracle("recovery_reference", [{"crystal": _tric2(), "orders": [4], "data_seed": 5}])
+
+
+def corpus_F1_rotation(rng):
+    Q, _ = np.linalg.qr(np.random.default_rng(11).normal(size=(3, 3)))
+    return O.run_oracle("description", [{"crystal": _tric2(), "orders": [4], "kind": "rotate", "Q": Q.tolist(), "seed": 0}])
+
+
+def corpus_F8(rng):
+    nprng = np.random.default_rng(2024)
+    n = 17
+    Q, _ = np.linalg.qr(nprng.normal(size=(n, n)))
+    ev = np.array([1.0] * 7 + [0.999] * 2 + [0.25] + [0.0] * 7)
+    M = (Q * ev) @ Q.T
+    M = (M + M.T) / 2
+    return O.run_oracle("eig", [{"matrix": M.tolist(), "hooks": {"eig_target": 3}}])
+
+
+def known_F8(k, f):
+    """F8: only the block-divided (large) path, only 'columns are not in the unit eigenspace', and only when the input
+    spectrum has eigenvalues just below 1 (in [0.99, 1 - 1e-8]) next to eigenvalue 1."""
+    if k["id"] != "F8":
+        return False
+    what = f.get("what", "")
+    if not what.startswith("eigsh_projector_sumrule_large: columns are not in the unit eigenspace"):
+        return False
+    try:
+        M = np.array((f.get("input") or {}).get("matrix"), dtype=float)
+        w = np.linalg.eigvalsh(M)
+    except Exception:
+        return False
+    return bool(np.any((w > 0.99) & (w < 1 - 1e-8)))
 
 
 # ------------------------------------------------------------------------------------------------ registry
@@ -124,12 +186,12 @@ PROPS = {
     "C01": {
         "lean": "SymfcModel.Props.C01", "gen": ["PermTables", "Cutoff"],
         "corr": [
-            {"fn": C.corr_cell_index, "quick": {"n_cases": 12}, "thorough": {"n_cases": 120}},
-            {"fn": C.corr_combinations, "quick": {"n_cases": 12}, "thorough": {"n_cases": 150}},
-            {"fn": C.corr_perm_stage, "quick": {"n_cases": 18}, "thorough": {"n_cases": 300}},
+            {"fn": C.corr_cell_index, "quick": {"n_cases": 30}, "thorough": {"n_cases": 200}},
+            {"fn": C.corr_combinations, "quick": {"n_cases": 30}, "thorough": {"n_cases": 240}},
+            {"fn": C.corr_perm_stage, "quick": {"n_cases": 60}, "thorough": {"n_cases": 600}},
         ],
         "oracle": [{"name": "basis_perm", "fn": o_basis,
-                    "quick": {"n": 6, "which": ("perm",)}, "thorough": {"n": 40, "which": ("perm",), "max_N": (10, 6, 6), "min_nlp": 2},
+                    "quick": {"n": 15, "which": ("perm",)}, "thorough": {"n": 60, "which": ("perm",), "max_N": (10, 6, 6), "min_nlp": 2},
                     "search": {"n": 30, "which": ("perm",), "max_N": (10, 6, 6)}},
                    {"name": "fit_perm", "fn": o_fit("normal_equations"), "quick": {"n": 3}, "thorough": {"n": 12},
                     "search": {"n": 12}}],
@@ -137,8 +199,8 @@ PROPS = {
     },
     "C02": {
         "lean": "SymfcModel.Props.C02", "gen": ["SumRule", "PermTables"],
-        "corr": [{"fn": S.corr_coset, "quick": {"n_cases": 12}, "thorough": {"n_cases": 150}},
-                 {"fn": C.corr_cell_index, "quick": {"n_cases": 6}, "thorough": {"n_cases": 60}}],
+        "corr": [{"fn": S.corr_coset, "quick": {"n_cases": 36}, "thorough": {"n_cases": 300}},
+                 {"fn": C.corr_cell_index, "quick": {"n_cases": 15}, "thorough": {"n_cases": 90}}],
         "oracle": [{"name": "basis_spg", "fn": o_basis, "quick": {"n": 9, "which": ("spg",), "explicit_ops": 0.5},
                     "thorough": {"n": 48, "which": ("spg",), "max_N": (10, 6, 4), "explicit_ops": 0.5},
                     "search": {"n": 36, "which": ("spg",), "explicit_ops": 0.5}}],
@@ -148,10 +210,10 @@ PROPS = {
         "lean": "SymfcModel.Props.C03", "gen": ["SumRule"],
         "corr": [{"fn": S.corr_sum_rule, "quick": {"n_cases": 36, "sizes": ((6, 6), (6, 6), (3, 3))},
                   "thorough": {"n_cases": 240, "sizes": ((8, 8), (6, 6), (4, 4))}}],
-        "oracle": [{"name": "basis_sum", "fn": o_basis, "quick": {"n": 6, "which": ("sum",)},
-                    "thorough": {"n": 36, "which": ("sum",), "max_N": (10, 6, 4)}, "search": {"n": 30, "which": ("sum",)}},
+        "oracle": [{"name": "basis_sum", "fn": o_basis, "quick": {"n": 12, "which": ("sum",)},
+                    "thorough": {"n": 48, "which": ("sum",), "max_N": (10, 6, 4)}, "search": {"n": 30, "which": ("sum",)}},
                    {"name": "basis_sum_large_path", "fn": o_basis,
-                    "quick": {"n": 3, "which": ("sum",), "hooks": {"eig_threshold": 5, "eig_target": 4, "sumrule_nbatch": 64}},
+                    "quick": {"n": 9, "which": ("sum",), "min_nlp": 2, "hooks": {"eig_threshold": 5, "eig_target": 4, "sumrule_nbatch": 64}},
                     "thorough": {"n": 18, "which": ("sum",), "hooks": {"eig_threshold": 5, "eig_target": 4, "sumrule_nbatch": 64}},
                     "search": {"n": 30, "which": ("sum",), "max_N": (8, 6, 4), "min_nlp": 2,
                                "hooks": {"eig_threshold": 5, "eig_target": 4, "sumrule_nbatch": 64}}}],
@@ -159,41 +221,48 @@ PROPS = {
     },
     "C04": {
         "lean": "SymfcModel.Props.C04", "gen": ["PermTables", "Cutoff"],
-        "corr": [{"fn": C.corr_perm_stage, "quick": {"n_cases": 12}, "thorough": {"n_cases": 150}},
-                 {"fn": C.corr_combinations, "quick": {"n_cases": 9}, "thorough": {"n_cases": 90}}],
-        "oracle": [{"name": "completeness", "fn": o_completeness, "quick": {"n": 6}, "thorough": {"n": 30, "with_cutoff": True},
-                    "search": {"n": 18, "with_cutoff": True}}],
+        "corr": [{"fn": C.corr_perm_stage, "quick": {"n_cases": 36}, "thorough": {"n_cases": 300}},
+                 {"fn": C.corr_combinations, "quick": {"n_cases": 18}, "thorough": {"n_cases": 120}}],
+        "oracle": [{"name": "completeness", "fn": o_completeness, "quick": {"n": 9, "with_cutoff": True},
+                    "thorough": {"n": 36, "with_cutoff": True}, "search": {"n": 24, "with_cutoff": True}},
+                   {"name": "completeness_large_eigen_path", "fn": o_completeness,
+                    "quick": {"n": 6, "hooks": {"eig_threshold": 5}}, "thorough": {"n": 24, "hooks": {"eig_threshold": 5}},
+                    "search": {"n": 24, "hooks": {"eig_threshold": 5}}}],
         "known": known_F1, "known_explains": ("none",),
+        "corpus": [{"name": "corpus_F1_order4_two_atom_P1", "fn": corpus_F1_completeness}],
         "trusted": [KERNELS["eigh"], KERNELS["numpy"], KERNELS["float"]],
     },
     "C05": {
         "lean": "SymfcModel.Props.C05", "gen": ["Solver"],
-        "corr": [{"fn": S.corr_reshape, "quick": {"n_cases": 18}, "thorough": {"n_cases": 200}},
-                 {"fn": S.corr_normal_eq, "quick": {"n_cases": 12}, "thorough": {"n_cases": 120}}],
-        "oracle": [{"name": "recovery", "fn": o_fit("recovery"), "quick": {"n": 6}, "thorough": {"n": 36}, "search": {"n": 30}}],
+        "corr": [{"fn": S.corr_reshape, "quick": {"n_cases": 36}, "thorough": {"n_cases": 300}},
+                 {"fn": S.corr_normal_eq, "quick": {"n_cases": 36}, "thorough": {"n_cases": 240}}],
+        "oracle": [{"name": "recovery", "fn": o_fit("recovery"), "quick": {"n": 12}, "thorough": {"n": 48}, "search": {"n": 36}}],
+        "known": known_F1,
+        "corpus": [{"name": "corpus_F1_reference_fc4_not_recovered", "fn": corpus_F1_recovery}],
         "trusted": [KERNELS["posv"], KERNELS["float"]],
     },
     "C06": {
         "lean": "SymfcModel.Props.C06", "gen": ["Solver"],
-        "corr": [{"fn": S.corr_normal_eq, "quick": {"n_cases": 12}, "thorough": {"n_cases": 120}}],
-        "oracle": [{"name": "normal_equations", "fn": o_fit("normal_equations"), "quick": {"n": 6, "confine": True},
+        "corr": [{"fn": S.corr_normal_eq, "quick": {"n_cases": 36}, "thorough": {"n_cases": 240}}],
+        "oracle": [{"name": "normal_equations", "fn": o_fit("normal_equations"), "quick": {"n": 12, "confine": True},
                     "thorough": {"n": 36, "confine": True}, "search": {"n": 30, "confine": True}}],
         "trusted": [KERNELS["posv"], KERNELS["float"]],
     },
     "C07": {
         "lean": "SymfcModel.Props.C07", "gen": ["Cutoff", "Api"],
-        "corr": [{"fn": C.corr_combinations, "quick": {"n_cases": 15}, "thorough": {"n_cases": 200}},
-                 {"fn": C.corr_perm_stage, "quick": {"n_cases": 9}, "thorough": {"n_cases": 90}}],
-        "oracle": [{"name": "cutoff", "fn": o_cutoff, "quick": {"n": 3}, "thorough": {"n": 15}, "search": {"n": 12}}],
+        "corr": [{"fn": C.corr_combinations, "quick": {"n_cases": 45}, "thorough": {"n_cases": 300}},
+                 {"fn": C.corr_perm_stage, "quick": {"n_cases": 24}, "thorough": {"n_cases": 150}}],
+        "oracle": [{"name": "cutoff", "fn": o_cutoff, "quick": {"n": 6}, "thorough": {"n": 24}, "search": {"n": 18}}],
         "known": known_F1,
+        "corpus": [{"name": "corpus_F1_order4_large_cutoff", "fn": corpus_F1_cutoff}],
         "trusted": [KERNELS["spglib"], KERNELS["float"],
                     "minimum-image distances (_calc_distances, Niggli reduction) are NOT modelled: `near` is an input of the theorems; "
                     "the oracle compares distances with an exhaustive image search"],
     },
     "C08": {
         "lean": "SymfcModel.Props.C08", "gen": ["PermTables"],
-        "corr": [{"fn": C.corr_cell_index, "quick": {"n_cases": 15}, "thorough": {"n_cases": 150}}],
-        "oracle": [{"name": "basis_compact", "fn": o_basis, "quick": {"n": 6, "which": ("compact",)},
+        "corr": [{"fn": C.corr_cell_index, "quick": {"n_cases": 45}, "thorough": {"n_cases": 300}}],
+        "oracle": [{"name": "basis_compact", "fn": o_basis, "quick": {"n": 15, "which": ("compact",)},
                     "thorough": {"n": 36, "which": ("compact",), "min_nlp": 2}, "search": {"n": 24, "which": ("compact",)}},
                    {"name": "fit_compact", "fn": o_fit("fit_relations"), "quick": {"n": 2}, "thorough": {"n": 12}}],
         "trusted": [KERNELS["float"]],
@@ -202,10 +271,10 @@ PROPS = {
         "lean": "SymfcModel.Props.C09", "gen": ["Eig"],
         "corr": [{"fn": corr_eig.corr_eigsh_projector, "quick": {"n_cases": 30}, "thorough": {"n_cases": 300}},
                  {"fn": corr_eig.corr_sumrule_plan, "quick": {"n_cases": 20}, "thorough": {"n_cases": 200}}],
-        "oracle": [{"name": "basis_ortho", "fn": o_basis, "quick": {"n": 6, "which": ("ortho",)},
+        "oracle": [{"name": "basis_ortho", "fn": o_basis, "quick": {"n": 12, "which": ("ortho",)},
                     "thorough": {"n": 36, "which": ("ortho",)}, "search": {"n": 24, "which": ("ortho",)}},
                    {"name": "basis_ortho_large_path", "fn": o_basis,
-                    "quick": {"n": 3, "which": ("ortho",), "hooks": {"eig_threshold": 5, "eig_target": 4}},
+                    "quick": {"n": 9, "which": ("ortho",), "hooks": {"eig_threshold": 5, "eig_target": 4}},
                     "thorough": {"n": 18, "which": ("ortho",), "hooks": {"eig_threshold": 5, "eig_target": 4}},
                     "search": {"n": 24, "which": ("ortho",), "hooks": {"eig_threshold": 5, "eig_target": 4}}}],
         "trusted": [KERNELS["eigh"], KERNELS["float"]],
@@ -213,8 +282,9 @@ PROPS = {
     "C10": {
         "lean": "SymfcModel.Props.C10", "gen": ["PermTables"],
         "corr": [{"fn": C.corr_cell_index, "quick": {"n_cases": 9}, "thorough": {"n_cases": 60}}],
-        "oracle": [{"name": "description", "fn": o_description, "quick": {"n": 10}, "thorough": {"n": 60}, "search": {"n": 40}}],
+        "oracle": [{"name": "description", "fn": o_description, "quick": {"n": 25}, "thorough": {"n": 100}, "search": {"n": 60}}],
         "known": known_F1,
+        "corpus": [{"name": "corpus_F1_order4_rotation", "fn": corpus_F1_rotation}],
         "trusted": [KERNELS["spglib"], KERNELS["float"],
                     "the geometry front end (spglib, tolerance matching of positions, Niggli distances) is not modelled; "
                     "description independence of (trans_perms, operations, near) is tested metamorphically"],
@@ -224,40 +294,42 @@ PROPS = {
         "corr": [{"fn": C.corr_perm_stage, "quick": {"n_cases": 12, "force_order": None}, "thorough": {"n_cases": 150}},
                  {"fn": S.corr_sum_rule, "quick": {"n_cases": 24, "sizes": ((6, 6), (6, 6), (3, 3))}, "thorough": {"n_cases": 120}},
                  {"fn": S.corr_normal_eq, "quick": {"n_cases": 9}, "thorough": {"n_cases": 90}}],
-        "oracle": [{"name": "paths", "fn": o_paths, "quick": {"n": 3}, "thorough": {"n": 18}, "search": {"n": 12}},
-                   {"name": "fit_paths", "fn": o_fit("fit_relations"), "quick": {"n": 2}, "thorough": {"n": 12}}],
+        "oracle": [{"name": "paths", "fn": o_paths, "quick": {"n": 6}, "thorough": {"n": 24}, "search": {"n": 18}},
+                   {"name": "fit_paths", "fn": o_fit("fit_relations"), "quick": {"n": 4}, "thorough": {"n": 18}}],
         "trusted": [KERNELS["eigh"], KERNELS["float"], "thread count / BLAS reduction order and log_level are not modelled"],
     },
     "C12": {
         "lean": "SymfcModel.Props.C12", "gen": ["Api", "Solver"],
-        "corr": [{"fn": corr_api.corr_api, "quick": {"n_hist": 10}, "thorough": {"n_hist": 120, "hist_len": 9}}],
-        "oracle": [{"name": "history", "fn": o_history, "quick": {"n": 3}, "thorough": {"n": 24}, "search": {"n": 16}}],
+        "corr": [{"fn": corr_api.corr_api, "quick": {"n_hist": 40}, "thorough": {"n_hist": 300, "hist_len": 9}}],
+        "oracle": [{"name": "history", "fn": o_history, "quick": {"n": 8}, "thorough": {"n": 40}, "search": {"n": 24}}],
         "trusted": [KERNELS["eigh"], KERNELS["posv"], "solver results are deterministic functions of their arguments (modelled as tokens)"],
     },
     "C13": {
         "lean": "SymfcModel.Props.C13", "gen": ["Solver"],
-        "corr": [{"fn": S.corr_normal_eq, "quick": {"n_cases": 12}, "thorough": {"n_cases": 120}}],
-        "oracle": [{"name": "fit_relations", "fn": o_fit("fit_relations"), "quick": {"n": 3}, "thorough": {"n": 18}, "search": {"n": 12}}],
+        "corr": [{"fn": S.corr_normal_eq, "quick": {"n_cases": 24}, "thorough": {"n_cases": 180}}],
+        "oracle": [{"name": "fit_relations", "fn": o_fit("fit_relations"), "quick": {"n": 6}, "thorough": {"n": 24}, "search": {"n": 18}}],
         "trusted": [KERNELS["posv"], KERNELS["float"]],
     },
     "C14": {
         "lean": "SymfcModel.Props.C14", "gen": [],
-        "corr": [{"fn": C.corr_cell_index, "quick": {"n_cases": 15}, "thorough": {"n_cases": 150}},
-                 {"fn": S.corr_coset, "quick": {"n_cases": 6}, "thorough": {"n_cases": 60}}],
-        "oracle": [{"name": "sg_perms", "fn": o_sg, "quick": {"n": 8}, "thorough": {"n": 60}, "search": {"n": 40}}],
+        "corr": [{"fn": C.corr_cell_index, "quick": {"n_cases": 45}, "thorough": {"n_cases": 300}},
+                 {"fn": S.corr_coset, "quick": {"n_cases": 18}, "thorough": {"n_cases": 120}}],
+        "oracle": [{"name": "sg_perms", "fn": o_sg, "quick": {"n": 24}, "thorough": {"n": 120}, "search": {"n": 60}}],
         "trusted": [KERNELS["spglib"], KERNELS["float"], "float tolerance matching of positions (symprec, rounding) is not modelled"],
     },
     "C15": {
         "lean": "SymfcModel.Props.C15", "gen": ["Eig"],
-        "corr": [{"fn": corr_eig.corr_eigsh_projector, "quick": {"n_cases": 40}, "thorough": {"n_cases": 400}},
-                 {"fn": corr_eig.corr_sumrule_plan, "quick": {"n_cases": 30}, "thorough": {"n_cases": 300}}],
-        "oracle": [{"name": "eig", "fn": o_eig, "quick": {"n": 40}, "thorough": {"n": 400}, "search": {"n": 300}}],
+        "corr": [{"fn": corr_eig.corr_eigsh_projector, "quick": {"n_cases": 120}, "thorough": {"n_cases": 800}},
+                 {"fn": corr_eig.corr_sumrule_plan, "quick": {"n_cases": 90}, "thorough": {"n_cases": 600}}],
+        "oracle": [{"name": "eig", "fn": o_eig, "quick": {"n": 150}, "thorough": {"n": 1000}, "search": {"n": 600}}],
+        "known": known_F8,
+        "corpus": [{"name": "corpus_F8_large_path_near_unit", "fn": corpus_F8}],
         "trusted": [KERNELS["eigh"], KERNELS["float"]],
     },
     "C16": {
         "lean": "SymfcModel.Props.C16", "gen": ["Api"],
         "corr": [{"fn": corr_api.corr_check_orders, "rng": False, "quick": {}, "thorough": {}},
-                 {"fn": corr_api.corr_api, "quick": {"n_hist": 10}, "thorough": {"n_hist": 150, "hist_len": 9}}],
+                 {"fn": corr_api.corr_api, "quick": {"n_hist": 40}, "thorough": {"n_hist": 300, "hist_len": 9}}],
         "oracle": [],
         "trusted": ["solver calls succeed or raise before returning (modelled)"],
     },
